@@ -122,6 +122,21 @@ func (s *sched) run(strategy int, budget int) {
 	}
 	var cur *sthread
 	preempt := map[int]bool{}
+	switchTo := map[int]int{}
+	if strategy == 6 && len(s.threads) >= 2 {
+		// two short pre-emptions: A runs k1 steps, B runs k2 steps, A runs k3 steps, B resumes (then run-to-block with
+		// cyclic switching): the shape "B is stopped between two adjacent actions while A does a few more"
+		a := s.r.intn(len(s.threads))
+		b := (a + 1 + s.r.intn(len(s.threads)-1)) % len(s.threads)
+		k1, k2, k3 := 1+s.r.intn(80), 1+s.r.intn(25), 1+s.r.intn(12)
+		cur = s.threads[a]
+		preempt[s.steps+k1] = true
+		switchTo[s.steps+k1] = b
+		preempt[s.steps+k1+k2] = true
+		switchTo[s.steps+k1+k2] = a
+		preempt[s.steps+k1+k2+k3] = true
+		switchTo[s.steps+k1+k2+k3] = b
+	}
 	if strategy == 5 {
 		// bounded-exhaustive exploration, one pre-emption: thread `first` runs `k` of its own steps, then the others
 		// run to completion (lowest id first), then it resumes.  (first, k) are encoded in the schedule seed.
@@ -192,6 +207,13 @@ func (s *sched) run(strategy int, budget int) {
 				}
 				if len(others) > 0 {
 					pick = others[s.r.intn(len(others))]
+					if want, ok := switchTo[s.steps]; ok {
+						for _, t := range others {
+							if t.id == want {
+								pick = t
+							}
+						}
+					}
 					if strategy == 5 {
 						// deterministic but fair: the next runnable thread after the current one, cyclically (a
 						// fixed preference would starve the holder of a spin lock two other threads are waiting for)
@@ -1768,7 +1790,7 @@ func schedMode(a map[string]string) {
 	for p := 0; p < nprog; p++ {
 		prog := genProgram(r, kind, focus)
 		for sidx := 0; sidx < nsched; sidx++ {
-			strategy := sidx % 4
+			strategy := []int{0, 1, 2, 3, 6}[sidx%5]
 			ss := r.next()
 			freeze := -1
 			if focus == "reader" {
